@@ -384,7 +384,7 @@ def main(argv=None):
         for res in results:
             for k, v in res.get("recheck", {}).items():
                 rc[k] = rc.get(k, 0) + v
-        evidence["coverage"]["second_solver_recheck"] = dict(rc, solver="cvc5 on the SMT-LIB2 export of every VC z3 discharged",
+        evidence["coverage"]["second_solver_recheck"] = dict(rc, solver="cvc5 on the SMT-LIB2 export of the VCs z3 discharged: every obligation id, up to VERIF_RECHECK_PER_ID (default 6) path instances per worker process",
                                                              note="DISAGREE makes the obligation undecided")
         xc = {"ran": False}
         if hasattr(mod, "replay") and not a.only:
